@@ -91,8 +91,12 @@ func ruleVariableWrites(r *Run) {
 	// (second table audit: a shortcut that returned the client's own map for a root step went
 	// unnoticed, and the second service lost its upload).
 	nv := 0
+	var sendRegion map[*ssa.Function]bool
+	if ex := r.P.Fn("executor.(*DepthExecutor).Execute"); ex != nil {
+		sendRegion = r.P.CG.Reachable([]*ssa.Function{ex}, nil)
+	}
 	for _, fn := range r.P.Funcs {
-		if shortPkg(topFn(fn).Pkg.Pkg.Path()) != "executor" {
+		if !sendRegion[fn] && shortPkg(topFn(fn).Pkg.Pkg.Path()) != "executor" {
 			continue
 		}
 		for _, ins := range allInstrs(fn) {
@@ -129,6 +133,32 @@ func freshMap(r *Run, v ssa.Value, depth int) (bool, string) {
 		}
 	case *ssa.Call:
 		return freshMapCall(r, x, 0, depth)
+	case *ssa.Parameter:
+		// a constructor or helper that receives the map: what its callers hand in
+		fn := x.Parent()
+		idx := -1
+		for i, p := range fn.Params {
+			if p == x {
+				idx = i
+			}
+		}
+		n := 0
+		for _, e := range r.P.CG.In[fn] {
+			if e.Kind != "static" || idx < 0 || depth > 4 {
+				return false, "parameter " + x.Name() + " of " + fnName(fn) + " (caller not resolved)"
+			}
+			args := e.Site.Common().Args
+			if idx >= len(args) {
+				return false, "parameter " + x.Name() + " of " + fnName(fn)
+			}
+			if ok, why := freshMap(r, args[idx], depth+1); !ok {
+				return false, why
+			}
+			n++
+		}
+		if n > 0 {
+			return true, ""
+		}
 	case *ssa.UnOp:
 		// a local variable that lives in a cell (captured, or address taken)
 		if al, ok := x.X.(*ssa.Alloc); ok && x.Op == token.MUL && depth < 6 {
@@ -156,8 +186,17 @@ func freshMap(r *Run, v ssa.Value, depth int) (bool, string) {
 	return false, "value of kind " + fmt.Sprintf("%T", v) + " at " + r.P.pos(v.Pos())
 }
 
+// freshMapMakers: library functions that return a map of their own (samber/lo: "returns a new map").
+var freshMapMakers = []string{"lo.PickByKeys", "lo.PickBy", "lo.PickByValues", "lo.OmitByKeys", "lo.OmitBy", "lo.OmitByValues", "lo.Assign", "lo.MapValues", "lo.MapKeys", "lo.MapEntries", "maps.Clone"}
+
 func freshMapCall(r *Run, c *ssa.Call, idx int, depth int) (bool, string) {
 	sc := c.Call.StaticCallee()
+	name := strings.SplitN(calleeName(&c.Call), "[", 2)[0]
+	for _, m := range freshMapMakers {
+		if strings.HasSuffix(name, m) {
+			return true, ""
+		}
+	}
 	if sc == nil || !inModule(sc) || sc.Blocks == nil || depth > 3 {
 		return false, "result of " + calleeName(&c.Call)
 	}
@@ -340,6 +379,9 @@ func ruleEncodings(which string) ruleFn {
 			// undoes with the inverse function of the same family
 			r.checkCodecPair("R13f.codec", []*ssa.Function{fip}, []*ssa.Function{ex, ile},
 				"an insertion point", "ids that contain the characters on which the two functions differ are looked up under another id: the object's fields from other services silently disappear")
+			// … and at every place the component is written: an id that is encoded at two of
+			// three writing sites and decoded always fails for the third (third audit)
+			r.checkEncodedEverywhere("R13f.codec", fip, "#")
 			// the id is a free-form trailing component: it must be split off at the first '#' only
 			okTail := true
 			var site ssa.Instruction
@@ -553,4 +595,86 @@ func (r *Run) checkCodecPair(rule string, writers, readers []*ssa.Function, what
 	r.Check(good, rule, fnName(writers[0]), "encoding of "+what+" undone by its inverse", site,
 		"writer and reader apply matching library encodings ("+fmt.Sprint(len(wn))+" on the writing side)",
 		"the components of "+what+" are encoded and decoded by functions that are not inverses of each other: "+why+" — "+consequence)
+}
+
+
+// checkEncodedEverywhere: when the writer applies a library encoder at all, every Sprintf of
+// the writer whose format holds the separator of the encoded component takes a value that went
+// through the encoder (directly or through a helper of the module that calls it).
+func (r *Run) checkEncodedEverywhere(rule string, writer *ssa.Function, sep string) {
+	inv := map[string]bool{}
+	for e, d := range codecInverse {
+		inv[e] = true
+		inv[d] = true
+	}
+	encodes := func(fn *ssa.Function) bool {
+		for _, ins := range allInstrs(fn) {
+			if ci, ok := ins.(ssa.CallInstruction); ok && inv[calleeName(ci.Common())] {
+				return true
+			}
+		}
+		return false
+	}
+	region := r.P.CG.Reachable([]*ssa.Function{writer}, nil)
+	any := false
+	for g := range region {
+		if topFn(g).Pkg == topFn(writer).Pkg && encodes(g) {
+			any = true
+		}
+	}
+	if !any {
+		return
+	}
+	var throughEncoder func(v ssa.Value, depth int) bool
+	throughEncoder = func(v ssa.Value, depth int) bool {
+		if depth > 6 || v == nil {
+			return false
+		}
+		if c, ok := v.(*ssa.Call); ok {
+			if inv[calleeName(&c.Call)] {
+				return true
+			}
+			if sc := c.Call.StaticCallee(); sc != nil && inModule(sc) && sc.Blocks != nil && encodes(sc) {
+				return true
+			}
+		}
+		ins, ok := v.(ssa.Instruction)
+		if !ok {
+			return false
+		}
+		for _, op := range ins.Operands(nil) {
+			if *op != nil && throughEncoder(*op, depth+1) {
+				return true
+			}
+		}
+		return false
+	}
+	for _, ins := range allInstrs(writer) {
+		c, ok := ins.(*ssa.Call)
+		if !ok || calleeName(&c.Call) != "fmt.Sprintf" || len(c.Call.Args) < 2 {
+			continue
+		}
+		k, ok := c.Call.Args[0].(*ssa.Const)
+		if !ok || k.Value == nil || !strings.Contains(constant.StringVal(k.Value), sep) {
+			continue
+		}
+		// the values packed into the variadic argument
+		encoded := false
+		if sl, ok := c.Call.Args[1].(*ssa.Slice); ok {
+			if arr, ok := sl.X.(*ssa.Alloc); ok {
+				for _, ref := range *arr.Referrers() {
+					if ia, ok := ref.(*ssa.IndexAddr); ok {
+						for _, r2 := range *ia.Referrers() {
+							if st, ok := r2.(*ssa.Store); ok && throughEncoder(st.Val, 0) {
+								encoded = true
+							}
+						}
+					}
+				}
+			}
+		}
+		r.Check(encoded, rule, fnName(writer), "component after `"+sep+"` encoded at this writing site", r.P.pos(c.Pos()),
+			"the value written after the separator went through the encoder",
+			"the writer encodes the component after `"+sep+"` at some sites but not at this one, while the reader always decodes it: a value written here that contains an escape character is rejected or changed when it is read back")
+	}
 }
